@@ -430,6 +430,10 @@ def sign(x, *a, **k):
 
 def hypot(a, b):
     def one(x, y):
+        if getattr(x, '_absorbing', False):
+            return x
+        if getattr(y, '_absorbing', False):
+            return y
         if isinstance(x, Sym) or isinstance(y, Sym):
             return (Sym.lift(x) * x + Sym.lift(y) * y).sqrt()
         return math.hypot(x, y)
